@@ -41,7 +41,9 @@ type Prog struct {
 	Funcs   map[string]*Func
 	ByObj   map[*types.Func]*Func
 
-	vtaG, chaG *callgraph.Graph
+	vtaG, chaG  *callgraph.Graph
+	siteIdx     map[ssa.CallInstruction][]*ssa.Function
+	chaFallback []*callgraph.Edge
 }
 
 // ShortPkg gives the short package name used in rule tables.
@@ -225,6 +227,46 @@ func Reachable(g *callgraph.Graph, roots ...*ssa.Function) map[*ssa.Function]*ss
 				seen[c] = f
 				work = append(work, c)
 			}
+		}
+	}
+	return seen
+}
+
+// ReachableNoStdlibTransit is Reachable, but calls made *by* standard library
+// functions are not followed (database/sql -> driver, sort -> callbacks);
+// closures nested in reachable functions are included instead, so callbacks
+// handed to the standard library are still analysed.
+func ReachableNoStdlibTransit(g *callgraph.Graph, roots ...*ssa.Function) map[*ssa.Function]*ssa.Function {
+	seen := map[*ssa.Function]*ssa.Function{}
+	var work []*ssa.Function
+	push := func(f, from *ssa.Function) {
+		if f == nil {
+			return
+		}
+		if _, ok := seen[f]; !ok {
+			seen[f] = from
+			work = append(work, f)
+		}
+	}
+	for _, r := range roots {
+		push(r, nil)
+	}
+	for len(work) > 0 {
+		f := work[len(work)-1]
+		work = work[:len(work)-1]
+		for _, a := range f.AnonFuncs {
+			push(a, f)
+		}
+		pkg := FuncPkgPath(f)
+		if IsStdlib(pkg) && pkg != "slices" && pkg != "maps" {
+			continue
+		}
+		n := g.Nodes[f]
+		if n == nil {
+			continue
+		}
+		for _, e := range n.Out {
+			push(e.Callee.Func, f)
 		}
 	}
 	return seen
